@@ -171,12 +171,45 @@ def _round_options(x):
     return {int(math.floor(x + 0.5))}
 
 
+OFFSETS = [0, 0, 0, 0, 3 * 10 ** 8, 2 ** 31 - 20, 2 ** 31 + 5, 2 ** 32 + 11]
+
+
+def offset_of(case):
+    """Coordinate offset of a generated case (0, chromosome-scale, or around 2^31 / 2^32): a pure function of the case JSON.
+    The enumerated small scopes stay at 0."""
+    import json
+    import zlib
+
+    if "offset" in case:
+        return case["offset"]
+    if case.get("enum"):
+        return 0
+    return OFFSETS[zlib.crc32(("off" + json.dumps(case, sort_keys=True, default=str)).encode()) % len(OFFSETS)]
+
+
+def _shifted(case):
+    import copy
+
+    off = offset_of(case)
+    if not off:
+        return case
+    c = copy.deepcopy(case)
+    c["offset"] = 0
+    for key in ("A", "B"):
+        if key in c:
+            for r in c[key]["rows"]:
+                r[1] += off
+                r[2] += off
+    return c
+
+
 def check_case(case):
     out = []
 
     def bad(clause, detail):
         out.append({"clause": clause, "detail": f"{detail}; A={case['A']['rows'][:8]} B={case.get('B', {}).get('rows', [])[:8]}"})
 
+    case = _shifted(case)
     A = case["A"]
     ga = gen.to_garr(A)
     _relabel(ga, case.get("index"))
